@@ -475,6 +475,7 @@ class Fold:
     def event(self, e, env=None):
         e["guards"] = list(self.guards)
         e["not"] = self.left()
+        e["left_kinds"] = [k for k, _m, _g in self.exits]
         if env is not None and self.snap and re.search(self.snap, e.get("target") or e.get("callee") or ""):
             e["env"] = env.copy()
         self.events.append(e)
